@@ -122,7 +122,7 @@ StreamMulti(s) ==
 
 \* --------------------------------------------------------------------------
 \* multilinear PST: statement (comm, point [id, dlen], val, proof [p, pt, mut])
-\* mut: "none" | "elem_rand" | "drop_last" | "extra"
+\* mut: "none" | "elem_rand" | "drop_last" | "extra" | "identity_long"
 \* check pairs vk.nv pairing lefts with the proof's elements; a point shorter than nv indexes out of bounds
 MlCheck(s) ==
   IF s.point.dlen < 0 THEN "panic"
@@ -132,7 +132,7 @@ MlCheck(s) ==
             [] s.proof.mut = "elem_rand" -> "reject"
             \* ark-ec's multi_pairing pairs its two lists with zip_eq: a proof with more or fewer than nv
             \* elements aborts (learnt from the code by replay: the first model had a truncating zip here)
-            [] s.proof.mut \in {"drop_last", "extra"} -> "panic"
+            [] s.proof.mut \in {"drop_last", "extra", "identity_long"} -> "panic"
 MlClaimsTrue(s) == ValueIs(s.val, s.comm, s.point.id)
 
 \* --------------------------------------------------------------------------
@@ -254,6 +254,10 @@ MlPlans(s) ==
   \cup {P("mut_" \o m, "any", [s EXCEPT !.proof.mut = m]) : m \in {"elem_rand", "drop_last", "extra"}}
   \cup {P("value_mut_" \o m, "not_accept", [s EXCEPT !.proof.mut = m, !.val.d = 1]) : m \in {"elem_rand", "drop_last", "extra"}}
   \cup {P("value_proof_other_poly", "not_accept", [s EXCEPT !.proof.p = q, !.val.d = 1]) : q \in Others(s.proof.p)}
+  \* a proof made of identity elements only, one element longer than the key has variables, for a false value:
+  \* every pairing with the identity is trivial, so only the pairing of the commitment term with h (or the refusal
+  \* of a list of the wrong length) stands between this and acceptance
+  \cup {P("value_identity_long", "not_accept", [s EXCEPT !.proof.mut = "identity_long", !.val.d = 1])}
   \cup {P("point_long", "any", [s EXCEPT !.point.dlen = 1])}
   \cup {P("point_short", "any", [s EXCEPT !.point.dlen = -1])}
   \cup {P("value_point_long", "not_accept", [s EXCEPT !.point.dlen = 1, !.val.d = 1])}
